@@ -376,7 +376,7 @@ func ruleG60(r *Run) {
 			key := fmt.Sprintf("effective weight lowered while positive in %s #%d", p.DeclName(fd), n)
 			want := types.ExprString(target)
 			good := false
-			for _, f := range collectFacts(parents, m) {
+			for _, f := range factsWithSwitch(parents, m) {
 				be, ok := f.e.(*ast.BinaryExpr)
 				if !ok {
 					continue
@@ -1214,5 +1214,116 @@ func ruleS21(r *Run) {
 	})
 	if n == 0 {
 		r.Undec("additions to MaxRequestLength", 0, "none found")
+	}
+}
+
+// ---------------------------------------------------------------------------------------------------
+
+func init() {
+	register("U8", "a question is not asked for nothing: a statement that consists of a call to a function of the repository which has results and no effects (its body only reads: no assignment to anything but its own locals, no send, no go/defer, no call of anything but functions of the same kind, len and cap) drops the only thing the call produces - the function that contains it was meant to return or use that value (Decoder.LastReferenceIndex asked the table for its last index, dropped it and returned -1 always)", 0, ruleU8)
+}
+
+func ruleU8(r *Run) {
+	p := r.P
+	memo := map[*types.Func]int{} // 1 pure, 2 not, 3 in progress
+	var pure func(f *types.Func, depth int) bool
+	pure = func(f *types.Func, depth int) bool {
+		if f == nil || !p.InRepo(f) || depth > 3 {
+			return false
+		}
+		switch memo[f] {
+		case 1:
+			return true
+		case 2, 3:
+			return false
+		}
+		memo[f] = 3
+		fd := p.Decl(f)
+		ok := fd != nil && fd.Body != nil
+		if ok {
+			info := p.InfoAt(fd.Pos())
+			locals := map[types.Object]bool{}
+			ast.Inspect(fd, func(m ast.Node) bool {
+				if id, isId := m.(*ast.Ident); isId && info != nil {
+					if o := info.Defs[id]; o != nil {
+						locals[o] = true
+					}
+				}
+				return true
+			})
+			// the receiver and the parameters are names of the function, what they point to is not
+			ast.Inspect(fd.Body, func(m ast.Node) bool {
+				if !ok || info == nil {
+					return false
+				}
+				switch x := m.(type) {
+				case *ast.AssignStmt:
+					for _, l := range x.Lhs {
+						if id, isId := ast.Unparen(l).(*ast.Ident); !isId || id.Name != "_" && !locals[identObj(info, id)] {
+							ok = false
+						}
+					}
+				case *ast.IncDecStmt:
+					if id, isId := ast.Unparen(x.X).(*ast.Ident); !isId || !locals[identObj(info, id)] {
+						ok = false
+					}
+				case *ast.SendStmt, *ast.GoStmt, *ast.DeferStmt, *ast.FuncLit:
+					ok = false
+				case *ast.UnaryExpr:
+					if x.Op == token.ARROW {
+						ok = false
+					}
+				case *ast.CallExpr:
+					if _, conv := isConversion(info, x); conv {
+						return true
+					}
+					if IsBuiltin(info, x, "len") || IsBuiltin(info, x, "cap") {
+						return true
+					}
+					if !pure(Callee(info, x), depth+1) {
+						ok = false
+					}
+				}
+				return ok
+			})
+		}
+		if ok {
+			memo[f] = 1
+		} else {
+			memo[f] = 2
+		}
+		return ok
+	}
+	n := 0
+	p.EachFunc(func(pkg *packages.Package, fd *ast.FuncDecl) {
+		info := pkg.TypesInfo
+		k := 0
+		ast.Inspect(fd.Body, func(m ast.Node) bool {
+			es, ok := m.(*ast.ExprStmt)
+			if !ok {
+				return true
+			}
+			c, ok := ast.Unparen(es.X).(*ast.CallExpr)
+			if !ok {
+				return true
+			}
+			f := Callee(info, c)
+			if f == nil || !p.InRepo(f) {
+				return true
+			}
+			if sig, _ := f.Type().(*types.Signature); sig == nil || sig.Results().Len() == 0 {
+				return true
+			}
+			if !pure(f, 0) {
+				return true
+			}
+			n++
+			k++
+			r.Viol(fmt.Sprintf("result of %s dropped in %s #%d", p.FuncName(f), p.DeclName(fd), k), es.Pos(), "the call only reads and its result is thrown away: the statement does nothing, and the function around it does not do what its name says")
+			return true
+		})
+	})
+	if n == 0 {
+		r.Ok("statements that drop the result of a function without effects", 0, "none")
 	}
 }
